@@ -74,6 +74,9 @@ pub struct Case {
     pub file_name: String,
     /// what fstat(0) reports for stdin: 0 as the kernel says, 1 regular file, 2 fifo, 3 character device, 4 socket
     pub stdin_kind: u8,
+    /// what the planned file claims to be: 0 a regular file, 2 a FIFO (size 0, no seeking, no positional reads —
+    /// `grex -f <(cmd)`), 3 a character device (size 0); its content is delivered all the same
+    pub file_kind: u8,
     /// regular-file stdin only: bytes of `stdin` already consumed before the program starts (its input is the rest)
     pub stdin_offset: usize,
     /// name the planned file relative to the working directory (the process is started in the file's directory)
@@ -98,7 +101,7 @@ impl Case {
             "path": self.path, "file_hex": hex(&self.file), "file_text": String::from_utf8_lossy(&self.file[..self.file.len().min(200)]),
             "file_mode": match self.file_mode { FileMode::Memfd => "memfd", FileMode::Absent => "absent", FileMode::RealDir => "realdir", FileMode::RealFs => "realfs", FileMode::None => "none" },
             "env": self.env.iter().map(|(k, v)| json!([k, v])).collect::<Vec<_>>(),
-            "file_name": self.file_name, "stdin_kind": self.stdin_kind, "stdin_offset": self.stdin_offset, "file_name_hex": self.file_name_hex, "rlimit_as_mb": self.rlimit_as_mb, "relative_path": self.relative_path,
+            "file_name": self.file_name, "stdin_kind": self.stdin_kind, "file_kind": self.file_kind, "stdin_offset": self.stdin_offset, "file_name_hex": self.file_name_hex, "rlimit_as_mb": self.rlimit_as_mb, "relative_path": self.relative_path,
             "tty": self.tty, "tty_out": self.tty_out, "seed": self.seed.to_string(),
             "events": self.events.iter().map(|(c, k, a)| json!([c, k, a])).collect::<Vec<_>>(),
             "dchunk": self.dchunk.iter().map(|(c, n)| json!([c, n])).collect::<Vec<_>>(),
@@ -158,6 +161,7 @@ impl Case {
                 .unwrap_or_default(),
             file_name: v.get("file_name").and_then(|x| x.as_str()).unwrap_or("").to_string(),
             stdin_kind: v.get("stdin_kind").and_then(|x| x.as_u64()).unwrap_or(0) as u8,
+            file_kind: v.get("file_kind").and_then(|x| x.as_u64()).unwrap_or(0) as u8,
             stdin_offset: v.get("stdin_offset").and_then(|x| x.as_u64()).unwrap_or(0) as usize,
             relative_path: v.get("relative_path").and_then(|x| x.as_bool()).unwrap_or(false),
             cwd: None,
@@ -190,6 +194,9 @@ impl Case {
                 let pb: &[u8] = if self.path_bytes.is_empty() { self.path.as_bytes() } else { &self.path_bytes };
                 p.push_str(&format!("path {}\n", hex(pb)));
                 p.push_str(&format!("real {}\n", hex(pb)));
+                if self.file_kind > 0 && self.file_mode == FileMode::Memfd {
+                    p.push_str(&format!("filekind {}\n", self.file_kind));
+                }
             }
             FileMode::None | FileMode::RealFs => {}
         }
